@@ -31,6 +31,9 @@ def build_positions(kd, sc, den=1):
     return out
 
 
+_FACTORIES = {}   # one factory per (minScore, breakSegmentThreshold) for all cases, as the pipeline keeps one per process
+
+
 def run_real(case, den=1):
     """Run one input through the real factory; returns the observation in spec terms (scaled integers)."""
     from src.alignment.segments_factory import AlignmentSegmentsFactory
@@ -39,7 +42,9 @@ def run_real(case, den=1):
     index = {id(p): k for k, p in enumerate(positions, start=1)}
     ms = case["ms"] / den if den != 1 else case["ms"]
     bs = case["bs"] / den if den != 1 else case["bs"]
-    segs = AlignmentSegmentsFactory(ms, bs).getSegments(positions, Peak(0, 1.))
+    if (ms, bs) not in _FACTORIES:
+        _FACTORIES[(ms, bs)] = AlignmentSegmentsFactory(ms, bs)
+    segs = _FACTORIES[(ms, bs)].getSegments(positions, Peak(0, 1.))
     obs = []
     for s in segs:
         idx = [index.get(id(p), 0) for p in s.positions]
